@@ -47,9 +47,13 @@ GTamper == /\ "tamper" \in Mode /\ CanMutate
 
 Opened(id) == \E i \in 1..Len(h) : h[i].act = "open" /\ h[i].a.id = id
 \* which receiver calls are worth a script
-Related(e, f) == (e.hs = f.hs /\ e.dv = f.dv /\ e.ct = f.ct) \/ e.sg = f.sg \/ e.pl = f.pl
+Related(e, f) == (e.hs = f.hs /\ e.dv = f.dv /\ e.ct = f.ct) \/ e.sg = f.sg
+\* presenting the forgery to the group whose secret does not box its headers is a script of its own
+Transplanted == \E i \in 1..Len(h) : h[i].act = "open" /\ h[i].a.id = "f" /\ h[i].a.g # fz[1].hs
 OpenAllowed(id, g) ==
-  IF fz # <<>> THEN id = "f" \/ (IsHonest(id) /\ g = Env(id).hs /\ Related(Env(id), fz[1]))
+  IF fz # <<>> THEN /\ ~Transplanted
+                    /\ \/ (id = "f" /\ (g = fz[1].hs \/ nopen = 0))
+                       \/ (IsHonest(id) /\ g = Env(id).hs /\ Related(Env(id), fz[1]))
   ELSE IF tz # <<>> THEN (id = "t" /\ g = Env(id).hs /\ ~Opened("t")) \/ (id = HL[tz[1].base] /\ g = Env(id).hs)
   ELSE "honest" \in Mode /\ ns = Len(SealPlan) /\ IsHonest(id)
 
